@@ -109,7 +109,7 @@ CHECKS["C14"] = dict(
          "bag defined by the stream, each failed fact with WHY it failed (the panic message, ambiguous match, no matching "
          "definition); documents must be well-formed, a feature with a source path is one object of the JSON document, "
          "the message attribute of a JUnit failure states a failure of its body, every libtest started line must have exactly one "
-         "result of the same name, suite totals and verdict must agree with the entries, JUnit testcase status with its "
+         "result of the same name, every feature has one libtest feature prefix of its own (also path-less same-named features with ParsingFinished arriving late), suite totals and verdict must agree with the entries, JUnit testcase status with its "
          "lines.  Known findings: F5 (libtest names of path-less features), F8 (JUnit lists no steps of a skipped testcase).",
     design_ref="DESIGN.md §3 C14",
     note="facts carry no attempt number (bag semantics); plain-token names in this round; parsers trusted; simulation sampling",
